@@ -1,3 +1,4 @@
+import AquaVerif.Proofs.CropCalendar
 import AquaVerif.Proofs.RunClosedRw
 import AquaVerif.Proofs.CropFull
 import AquaVerif.Proofs.Run
@@ -304,5 +305,30 @@ theorem run_crop_envelope_of_residual {F : Fn α} {T : TrigFn α} {cfg : RunCfg 
       ∀ d ∈ s.daysRev, CropInv F d.P d.st ∧ CropInv F d.P d.r.state :=
   run_cropInv_closed hC hW hr hR
 end closed
+
+
+/-! ### degree days counted for the crop calendar -/
+
+section calendarGdd
+variable {α : Type} [Field α] [LinearOrder α] [IsStrictOrderedRing α]
+
+/-- the degree-day series from which the thermal calendar is derived (at initialisation and at every
+season start) lies in `[0, Tupp − Tbase]` day by day, and its running sum never decreases -/
+theorem calendar_degree_days_in_range (m : GddMethod) {tbase tupp : α} (h : tbase ≤ tupp)
+    (temps : List (α × α)) :
+    (∀ g ∈ gddSeriesInit m tbase tupp temps, 0 ≤ g ∧ g ≤ tupp - tbase) ∧
+    (∀ g ∈ gddSeriesReset m tbase tupp temps, 0 ≤ g ∧ g ≤ tupp - tbase) ∧
+    (cumsum (gddSeriesReset m tbase tupp temps)).Pairwise (· ≤ ·) :=
+  ⟨gddSeriesInit_range m h temps, gddSeriesReset_range m h temps,
+    cumsum_pairwise (fun g hg => (gddSeriesReset_range m h temps g hg).1)⟩
+
+/-- the derived calendar is ordered: start of yield formation ≤ its end ≤ maturity < 365 days -/
+theorem thermal_calendar_ordered {F : Fn α} {c : CalGDDIn α} {temps : List (α × α)}
+    {o : CalGDDOut α} (h : calendarInit F c temps = .ok o) (hy : 0 ≤ c.yldForm)
+    (hm : c.hiStart + c.yldForm ≤ c.maturity) :
+    1 ≤ o.days.hiStartCD ∧ o.days.hiStartCD ≤ o.days.hiEndCD ∧
+    o.days.hiEndCD ≤ o.days.maturityCD ∧ o.days.maturityCD < 365 ∧ 0 ≤ o.days.yldFormCD :=
+  calendarInit_order h hy hm
+end calendarGdd
 
 end Aqua.C05
